@@ -1146,6 +1146,11 @@ func (w *worker) stepInner(line string) string {
 		go func() { ch <- s.node.CancelBlockRequest(hx.Ctx(), hash) }()
 		select {
 		case r := <-ch:
+			// an in-progress cancel closes the connection: see whether the node hung up
+			if s.waitFor(40*time.Millisecond, func() bool { return false }) == "closed" {
+				s.dead = true
+				return op + " => started=" + b2s(r) + " closed=1 run=" + s.waitRun(runReturnMax)
+			}
 			return op + " => started=" + b2s(r)
 		case <-time.After(waitOf(a, 300*time.Millisecond)):
 			s.cancelCh = ch
